@@ -289,6 +289,7 @@ def run(ctx):
         _formats(ctx, rng, tmp)
         # ---------------------------------------------------------------- registry
         _registry(ctx, rng, tmp, loghandler)
+        _factory_reopen(ctx, load, tmp)
     finally:
         loghandler.closeFiles()
         root = logging.getLogger()
@@ -455,6 +456,48 @@ def _formats(ctx, rng, tmp):
                             {"text": text, "style": style, "format": fmt},
                             signature="C20:format:format-raises:%s:%s%s" % (style, type(e).__name__, _value_dependent_shape(style, fmt)))
             reset_logging([name])
+
+
+def _factory_reopen(ctx, load, tmp):
+    """LoggerFactoryBase.reopen() walks the logger's handlers: it must act on the file handlers that are still alive - a handler
+    that was closed (handler.close(), loghandler.closeFiles()) while still attached to its logger is left alone: its file is not
+    created again and it gets no stream"""
+    import logging
+    from ZConfig.components.logger import loghandler
+    a, b = os.path.join(tmp, "ro-a.log"), os.path.join(tmp, "ro-b.log")
+    text = "<logger>\n name zcv.c20.ro\n <logfile>\n  path %s\n </logfile>\n <logfile>\n  path %s\n </logfile>\n</logger>\n" % (a, b)
+    r = load(text)
+    ctx.evaluations += 1
+    if r[0] != "ok":
+        ctx.notes.append("factory-reopen scenario did not load: %r" % (r[:2],))
+        return
+    fac = r[1].loggers[0]
+    logger = fac()
+    try:
+        ha, hb = logger.handlers
+        logger.warning("one")
+        ha.close()                                   # closed, still attached
+        for p_ in (a, b):
+            if os.path.exists(p_):
+                os.rename(p_, p_ + ".1")             # the files are rotated away
+        fac.reopen()
+        state = {"closed handler has a stream": ha.stream is not None, "closed handler's file re-created": os.path.exists(a),
+                 "live handler's file re-created": os.path.exists(b)}
+        ctx.nontriv("factory-reopen")
+        if state != {"closed handler has a stream": False, "closed handler's file re-created": False, "live handler's file re-created": True}:
+            ctx.violate("factory.reopen() after one of two file handlers was closed: %r" % (state,), {"text": text, "state": state},
+                        signature="C20:reopen:closed-handler-touched")
+        loghandler.closeFiles()
+        for p_ in (a, b):
+            if os.path.exists(p_):
+                os.remove(p_)
+        fac.reopen()
+        ctx.evaluations += 1
+        if os.path.exists(a) or os.path.exists(b) or ha.stream is not None or hb.stream is not None:
+            ctx.violate("factory.reopen() after closeFiles() re-opened closed handlers: files %r" % ([os.path.exists(a), os.path.exists(b)],),
+                        {"text": text}, signature="C20:reopen:closed-handler-touched")
+    finally:
+        reset_logging(["zcv.c20.ro"])
 
 
 def _registry(ctx, rng, tmp, loghandler):
